@@ -115,7 +115,7 @@ def scan_structure(prog, reg, cid, props_table):
     (b) no module-level statement re-binds attributes of package classes (monkey patching at import),
     (c) contracted functions carry only the known decorators."""
     checked, viol = 0, []
-    keys = {k.split('#')[0] for k in props_table[cid]['functions']}
+    keys = {k.split('#')[0] for k in list(props_table[cid]['functions']) + list(props_table[cid].get('deps', []))}
     contracted = {k.split('#')[0].split('@')[0] for k in reg.contracts}
     for key in sorted(keys):
         mod, _, qual = key.partition('.')
